@@ -65,6 +65,11 @@ def config_from_init(ctx, rule):
         for k, bi, _, _, v in direct:
             cs = cond_exprs(prog, k, bi)
             good = good or P.exactly(cs, [P.is_(SRC, 'Some')])
+        # the same written as `config.f = init_config.f.unwrap_or(config.f)`
+        DEF = P.field(name, P.call('<ic_btc_interface::Config as core::default::Default>::default'))
+        alt = [w for w in mine if P.call('*::unwrap_or', SRC, DEF)(w[4]) and not cond_exprs(prog, w[0], w[1])]
+        if alt and not direct:
+            direct, good = alt, True
         others = [w for w in mine if w not in direct]
         if name == 'fees':
             # post-processing: without explicit fees, mainnet / testnet get their own tables
@@ -162,8 +167,14 @@ def set_config_same_name(ctx, rule):
     """set_config: every setting is overwritten with the request's field of the same name"""
     prog = ctx.prog
     f = ctx.fn(rule, 'ic_btc_canister::api::set_config::set_config_no_verification')
-    if not f:
+    fw = ctx.fn(rule, 'ic_btc_canister::api::set_config::set_api_access')
+    if not f or not fw:
         return
+    # the watchdog's entry writes the access flag and nothing else
+    ww = [(k, bi, name, v) for k, bi, name, owner, v in _field_writes(prog, fw) if owner.startswith('ic_btc_canister::')]
+    okw = len(ww) == 1 and ww[0][2] == 'api_access' and (_cfg_fields(ww[0][3]) | _cfg_fields_via_captures(prog, ww[0][0], ww[0][3])) == {'api_access'}
+    ctx.check(okw, rule, 'set_api_access-only-the-flag', fw, 'set_api_access (the watchdog\'s entry) sets state.api_access from request.api_access and nothing else',
+              'set_api_access writes %s' % [(w[2], show(w[3])[:50]) for w in ww])
     n = 0
     for k, bi, name, owner, v in _field_writes(prog, f):
         if not owner.startswith('ic_btc_canister::'):
